@@ -53,4 +53,38 @@ mod verif_oracle_codec {
             }
         }
     }
+
+    // Executable form of the field-vector codec contracts (unit fieldvec_codec) on Field64: encode appends exactly the element
+    // encodings; decode(count) is Ok exactly when count*8 bytes are there and every chunk is canonical, yields those elements and
+    // advances the cursor by count*8.
+    #[test]
+    fn oracle_fieldvec() {
+        use crate::field::{decode_fieldvec, encode_fieldvec, Field64, FieldElement};
+        for n in 0..6usize {
+            let v: Vec<Field64> = (0..n as u64).map(|i| Field64::from(i * 0x1_0000_0001 + 7)).collect();
+            let mut bytes = vec![0x11u8, 0x22, 0x33];
+            if encode_fieldvec(&v, &mut bytes).is_err() || bytes.len() != 3 + 8 * n || bytes[..3] != [0x11, 0x22, 0x33] {
+                println!("COUNTEREXAMPLE encode_fieldvec of {} Field64 elements after 3 existing bytes: wrote {} bytes in total (expected {}), or touched the existing bytes", n, bytes.len(), 3 + 8 * n);
+                continue;
+            }
+            bytes.extend_from_slice(&[0xee; 5]);
+            for count in 0..=(n + 1) {
+                let mut cur = Cursor::new(bytes.as_slice());
+                cur.set_position(3);
+                let r: Result<Vec<Field64>, _> = decode_fieldvec(count, &mut cur);
+                // the 5 trailing 0xee bytes are not a whole element: count = n + 1 must fail
+                let want_ok = count <= n;
+                match r {
+                    Ok(w) => if !want_ok || w[..] != v[..count] || cur.position() != (3 + 8 * count) as u64 {
+                        println!("COUNTEREXAMPLE decode_fieldvec(count = {}) over the encoding of {} elements: Ok with {} elements, cursor at {} (expected {} elements equal to the encoded ones and the cursor at {})", count, n, w.len(), cur.position(), count, 3 + 8 * count);
+                    },
+                    Err(_) => if want_ok { println!("COUNTEREXAMPLE decode_fieldvec(count = {}) refuses the encoding of {} elements", count, n); },
+                }
+            }
+        }
+        // a non-canonical chunk (all 0xff >= p) is refused
+        let bad = [0xffu8; 8];
+        let mut cur = Cursor::new(&bad[..]);
+        if decode_fieldvec::<Field64>(1, &mut cur).is_ok() { println!("COUNTEREXAMPLE decode_fieldvec accepts the non-canonical Field64 encoding ff..ff"); }
+    }
 }
